@@ -80,6 +80,23 @@ class Ev:
         return [self.tag, self.pgn, self.src, self.dst, self.data.hex(), self.definition]
 
 
+def pick_sources(rng, n, avoid=()):
+    """n distinct source addresses 0..251: random ones and addresses the code under test mentions literally."""
+    pool = [a for a in gen.harvested_in(0, 251) if a not in avoid]
+    out = []
+    while len(out) < n:
+        a = rng.choice(pool) if pool and rng.random() < 0.3 else rng.randrange(0, 252)
+        if a not in out and a not in avoid:
+            out.append(a)
+    return out
+
+
+def pick_unique_number(rng):
+    """A 21-bit unique number: random, or one the code under test mentions literally."""
+    hv = gen.harvested_in(0, (1 << 21) - 4)
+    return rng.choice(hv) if hv and rng.random() < 0.2 else rng.randrange((1 << 21) - 3)
+
+
 def feed(dec, ev: Ev, fmt="ebyte"):
     if fmt == "ebyte":
         return dec.decode_tcp(ev.ebyte())
